@@ -29,10 +29,13 @@ ASSUMPTIONS = ["as C01", "power sums 1..N determine the characteristic polynomia
 REQUIRED_CLASSES = {"all": ["blocks=3", "params=2", "repr=sympy", "selection=full", "rs-checked"]}
 
 
+FORMS = ("indices", "indices", "indices", "blocks", "blocks", "eigvecs")
+
+
 def strategy(tier):
     if tier == "thorough":
-        return problems(tier, hermitian=True, max_N=9, max_block_size=4)
-    return problems(tier, hermitian=True)
+        return problems(tier, hermitian=True, max_N=9, max_block_size=4, forms=FORMS)
+    return problems(tier, hermitian=True, forms=FORMS)
 
 
 def check_case(case, enforce_all=False):
